@@ -395,6 +395,18 @@ KeywordsKnown(inp, out) ==
      \/ \E k \in 1..Len(KwTable) : KwTable[k] = t
      \/ (Len(t) = 3 /\ t[1] >= 49 /\ t[1] <= 53 /\ Digit(t[2]) /\ Digit(t[3]))
 
+\* an annotation lexeme is what its delimiters enclose: after "//" it holds no line end, after "/*" it holds no "*/"
+\* (it ends at the FIRST one) and is directly followed by one
+AnnotationsDelimited(inp, out) ==
+  \A i \in 1..Len(out) : (out[i][1] = 2 /\ out[i][2] >= 2 /\ out[i][2] <= out[i][3]) =>
+     LET b == out[i][2]  e == out[i][3] IN
+     IF ByteAt(inp, b - 2) = 47 /\ ByteAt(inp, b - 1) = 42
+     THEN /\ ~\E k \in b..(e - 1) : ByteAt(inp, k) = 42 /\ ByteAt(inp, k + 1) = 47
+          /\ e + 2 < Len(inp) + 1 /\ ByteAt(inp, e + 1) = 42 /\ ByteAt(inp, e + 2) = 47
+     ELSE IF ByteAt(inp, b - 2) = 47 /\ ByteAt(inp, b - 1) = 47
+     THEN ~\E k \in b..e : Nl(ByteAt(inp, k))
+     ELSE TRUE
+
 \* every byte outside all lexemes is whitespace, a line end, comment text or an annotation delimiter.
 \* Gap grammar (a small recogniser over the bytes between two lexemes): blanks and line ends; "#" up
 \* to the end of line; "###" ... "###"; "//" directly before an annotation lexeme; "/*" before and "*/"
